@@ -323,6 +323,13 @@ func decodeKey(seq ansi.Sequence) Key {
 	case ansi.ESC:
 		key.Keycode = seq.Final
 		key.Modifiers = ModAlt
+		if unicode.IsUpper(seq.Final) {
+			// Same normalization as ansi.Print: an uppercase letter is
+			// the shifted lowercase key
+			key.Keycode = unicode.ToLower(seq.Final)
+			key.ShiftedCode = seq.Final
+			key.Modifiers |= ModShift
+		}
 	case ansi.SS3:
 		switch rune(seq) {
 		case 'A':
